@@ -30,7 +30,7 @@ def main(run: Run) -> int:
                 for o2 in range(4):
                     for s2 in range(2):
                         for o3 in range(4):
-                            jobs.append({"fn": "history", "globals": {"STEPS": 3, "MAXSIZE": 0, "NS": 2, "EDIT_SET": (0, 2, 7, 10), "FIX": (o1, s1, o2, s2, o3)}, "timeout": 900, "bound": "3 steps (edits 0,2,7,10) + final parse"})
+                            jobs.append({"fn": "history", "globals": {"STEPS": 3, "MAXSIZE": 0, "NS": 2, "EDIT_SET": (0, 2, 10), "FIX": (o1, s1, o2, s2, o3)}, "timeout": 900, "bound": "3 steps (edits 0,2,10) + final parse"})
     for a in range(9):
         jobs.append({"fn": "eviction", "globals": {"MAXSIZE": 2, "FIXA": a // 3, "FIXB": a % 3}, "timeout": 600, "bound": "cache scaled down to maxsize=2, 3 distinct strings, 4 calls, edits {none, replace, delete} at depth 1/0: hits, misses and evictions"})
     for k in range(4):
